@@ -15,6 +15,7 @@ import (
 	"sort"
 	"strings"
 	"sync"
+	"sync/atomic"
 	"testing"
 	"time"
 )
@@ -224,6 +225,8 @@ type vfC17DebResult struct {
 	// listeners never resolved although every stop() returned
 	Unanswered      []string `json:"unanswered"`
 	UnansweredClass string   `json:"unanswered_class"`
+	Unsure          string   `json:"unsure"`
+	Skipped         bool     `json:"skipped"`
 }
 
 func vfC17RunDebSchedule(sch *vfC17DebSchedule, watchdog time.Duration) vfC17DebResult {
@@ -233,7 +236,7 @@ func vfC17RunDebSchedule(sch *vfC17DebSchedule, watchdog time.Duration) vfC17Deb
 	r.d = vfC17NewDebouncer(r)
 	res := vfC17DebResult{N: sch.N, Origin: sch.Origin, Steps: len(sch.Steps), Req: map[string]string{}, Stops: []string{}, Unanswered: []string{}}
 	for _, st := range sch.Steps {
-		if e := r.exec(st, 2*time.Second); e != nil {
+		if e := r.exec(st, 5*time.Second); e != nil {
 			res.Stuck = fmt.Sprintf("%s %s: %v", st.Cmd, st.Who, e)
 			break
 		}
@@ -267,30 +270,45 @@ func vfC17RunDebSchedule(sch *vfC17DebSchedule, watchdog time.Duration) vfC17Deb
 			r.mu.Unlock()
 		}()
 	}
-	ok := vfC17Poll(watchdog, r.locked(func() bool {
+	// every stop() returns: early exit; a hang is declared only after the deadline with no hook of this
+	// debouncer firing any more (the flusher and the stoppers are parked for good)
+	_ = watchdog
+	evCount := func() int64 { return int64(len(r.sc.tr.Events())) }
+	so := vfC17Settle(r.locked(func() bool {
 		for _, k := range r.stopCall {
 			if !r.stopRet[k] {
 				return false
 			}
 		}
 		return true
-	}))
+	}), evCount, nil)
+	ok := so == vfC17Good
+	if so == vfC17Unsure {
+		res.Unsure = "stop() had not returned at the hard cap while the debouncer's hooks were still firing"
+	}
 	// every listener is watched: once every stop() has returned the flusher is gone, so each request -
 	// made before, during (refreshFn running) or after stop - must have been answered or refused
 	// (closed channel) within the watchdog
 	listeners := true
 	if ok {
-		listeners = vfC17Poll(watchdog, r.locked(func() bool {
+		lo := vfC17Settle(r.locked(func() bool {
 			for _, v := range r.req {
 				if v == "waiting" {
 					return false
 				}
 			}
 			return true
-		}))
+		}), evCount, nil)
+		listeners = lo != vfC17Bad
+		if lo == vfC17Unsure {
+			res.Unsure = "listeners were unresolved at the hard cap while the debouncer's hooks were still firing"
+		}
 	}
 	r.mu.Lock()
-	res.Hang = !ok
+	res.Hang = so == vfC17Bad
+	if res.Hang || !listeners {
+		atomic.AddInt32(&vfC17WallVerdicts, 1)
+	}
 	if !listeners {
 		cls := map[string]bool{}
 		for k, v := range r.req {
@@ -390,7 +408,14 @@ func TestVfC17Debouncer(t *testing.T) {
 		go func(sch *vfC17DebSchedule) {
 			defer wg.Done()
 			defer func() { <-sem }()
-			res := vfC17RunDebSchedule(sch, watchdog)
+			var res vfC17DebResult
+			if atomic.LoadInt32(&vfC17WallVerdicts) >= 6 && sch.Origin == "sim" {
+				// the verdict stands (each further one costs the generous deadline): skip the remaining random walks
+				res = vfC17DebResult{N: sch.N, Origin: sch.Origin, Steps: len(sch.Steps), Req: map[string]string{}, Stops: []string{},
+					Unanswered: []string{}, Skipped: true}
+			} else {
+				res = vfC17RunDebSchedule(sch, watchdog)
+			}
 			mu.Lock()
 			out.Write(res)
 			n++
